@@ -26,7 +26,7 @@ Qed.
 
 Lemma notify_psn_unchanged w p a body p' o cl :
   notify_w w p a body = (p', o, cl) -> p_psn p' = p_psn p.
-Proof. intros H. now destruct (notify_frame _ _ _ _ _ _ _ H) as (_ & _ & _ & ->). Qed.
+Proof. intros H. now destruct (notify_frame _ _ _ _ _ _ _ H) as (_ & _ & _ & -> & _). Qed.
 
 (* ---- pointwise update of one pairing --------------------------------------- *)
 
@@ -75,16 +75,22 @@ Definition fwd_op (c : ctrl) (j : nat) (o : op) : Prop :=
   | OPopulate i n | OUpdate i n | OPlain i n =>
       forall p s, nth_error c j = Some p -> p_id p = i -> p_sn p = Some s -> s <= n
   | ORestart => forall p, nth_error c j = Some p -> p_sn (restart_p p) = p_sn p
+  | OSetKey _ _ => True
   end.
+
+(* the operation does not (re)generate the broadcast key of the pairing with id i *)
+Definition keeps_key (i : bytes) (o : op) : Prop :=
+  match o with OSetKey i' _ => i' <> i | _ => True end.
 
 Lemma apply_ids w c o : map p_id (fst (fst (apply_w w c o))) = map p_id c.
 Proof.
-  destruct o as [f|i n|i n|i n|]; cbn [apply_w fst].
+  destruct o as [f|i n|i n|i n| |i k]; cbn [apply_w fst].
   - destruct (detect_w w c f) as [[c' oc] cl] eqn:E. cbn. exact (detect_ids _ _ _ _ _ _ E).
   - apply upd_ids. intros p. unfold populate_p. now destruct (p_sn p).
   - apply upd_ids. intros p. unfold update_p. now destruct (p_sn p).
   - apply upd_ids. reflexivity.
   - rewrite map_map. reflexivity.
+  - apply upd_ids. intros p. unfold setkey_p. now destruct (p_sig p).
 Qed.
 
 Lemma apply_wf w c o : wf_ctrl c -> wf_ctrl (fst (fst (apply_w w c o))).
@@ -93,30 +99,36 @@ Proof. unfold wf_ctrl. now rewrite apply_ids. Qed.
 Lemma apply_j w c o j p :
   wf_ctrl c -> fwd_op c j o -> nth_error c j = Some p ->
   exists q, nth_error (fst (fst (apply_w w c o))) j = Some q /\
-            p_id q = p_id p /\ p_key q = p_key p /\ p_chars q = p_chars p /\ sn_le (p_sn p) (p_sn q).
+            p_id q = p_id p /\ (keeps_key (p_id p) o -> p_key q = p_key p) /\
+            p_chars q = p_chars p /\ sn_le (p_sn p) (p_sn q).
 Proof.
-  intros Hwf Hf Hn. destruct o as [f|i n|i n|i n|]; cbn [apply_w fst].
+  intros Hwf Hf Hn. destruct o as [f|i n|i n|i n| |i k]; cbn [apply_w fst].
   - destruct (detect_w w c f) as [[c' oc] cl] eqn:E. cbn [fst].
     destruct (detect_sn_step _ _ _ _ _ _ _ _ Hwf E Hn) as [[Hn' _]|(p' & s & n & Hn' & Hi & Hk & Hc & Hs & Hs' & Hw)].
-    + exists p. repeat split; try assumption; try reflexivity. apply sn_le_refl.
-    + exists p'. repeat split; try assumption. rewrite Hs, Hs'. exists n. split; [reflexivity|lia].
+    + exists p. repeat split; try assumption; try reflexivity; try (intros _; reflexivity). apply sn_le_refl.
+    + exists p'. repeat split; try assumption; try (intros _; assumption). rewrite Hs, Hs'. exists n. split; [reflexivity|lia].
   - rewrite (upd_j _ _ _ _ _ Hwf Hn). destruct (beq_bytes (p_id p) i) eqn:Eb.
     + apply beq_bytes_eq in Eb. exists (populate_p n p). unfold populate_p.
-      destruct (p_sn p) as [s|] eqn:Es; cbn; repeat split; try reflexivity; try (rewrite Es; exact I).
+      destruct (p_sn p) as [s|] eqn:Es; cbn; repeat split; try reflexivity; try (intros _; reflexivity); try (rewrite Es; exact I).
       exists n. split; [reflexivity|]. exact (Hf p s Hn Eb Es).
-    + exists p. repeat split; try reflexivity. apply sn_le_refl.
+    + exists p. repeat split; try reflexivity; try (intros _; reflexivity). apply sn_le_refl.
   - rewrite (upd_j _ _ _ _ _ Hwf Hn). destruct (beq_bytes (p_id p) i) eqn:Eb.
     + apply beq_bytes_eq in Eb. exists (update_p n p). unfold update_p.
-      destruct (p_sn p) as [s|] eqn:Es; cbn; repeat split; try reflexivity; try (rewrite Es; exact I).
+      destruct (p_sn p) as [s|] eqn:Es; cbn; repeat split; try reflexivity; try (intros _; reflexivity); try (rewrite Es; exact I).
       exists n. split; [reflexivity|]. exact (Hf p s Hn Eb Es).
-    + exists p. repeat split; try reflexivity. apply sn_le_refl.
+    + exists p. repeat split; try reflexivity; try (intros _; reflexivity). apply sn_le_refl.
   - rewrite (upd_j _ _ _ _ _ Hwf Hn). destruct (beq_bytes (p_id p) i) eqn:Eb.
-    + apply beq_bytes_eq in Eb. exists (plain_p n p). cbn. repeat split; try reflexivity.
+    + apply beq_bytes_eq in Eb. exists (plain_p n p). cbn. repeat split; try reflexivity; try (intros _; reflexivity).
       destruct (p_sn p) as [s|] eqn:Es; cbn; [|exact I].
       exists n. split; [reflexivity|]. exact (Hf p s Hn Eb Es).
-    + exists p. repeat split; try reflexivity. apply sn_le_refl.
+    + exists p. repeat split; try reflexivity; try (intros _; reflexivity). apply sn_le_refl.
   - rewrite nth_error_map, Hn. cbn [option_map]. exists (restart_p p).
-    repeat split; try reflexivity. rewrite (Hf p Hn). apply sn_le_refl.
+    repeat split; try reflexivity; try (intros _; reflexivity). rewrite (Hf p Hn). apply sn_le_refl.
+  - rewrite (upd_j _ _ _ _ _ Hwf Hn). destruct (beq_bytes (p_id p) i) eqn:Eb.
+    + apply beq_bytes_eq in Eb. exists (setkey_p k p). unfold setkey_p.
+      destruct (p_sig p); cbn; repeat split; try reflexivity; try apply sn_le_refl;
+        intros Hk; cbn in Hk; congruence.
+    + exists p. repeat split; try reflexivity; try (intros _; reflexivity). apply sn_le_refl.
 Qed.
 
 (* ---- histories of operations -------------------------------------------------- *)
@@ -140,14 +152,17 @@ Qed.
 Lemma final_ops_j w c h j p :
   wf_ctrl c -> fwd_hist w c j h -> nth_error c j = Some p ->
   exists q, nth_error (final_ops_w w c h) j = Some q /\
-            p_id q = p_id p /\ p_key q = p_key p /\ p_chars q = p_chars p /\ sn_le (p_sn p) (p_sn q).
+            p_id q = p_id p /\ (Forall (keeps_key (p_id p)) h -> p_key q = p_key p) /\
+            p_chars q = p_chars p /\ sn_le (p_sn p) (p_sn q).
 Proof.
   revert c p. induction h as [|o r IH]; intros c p Hwf Hf Hn.
   - exists p. cbn. repeat split; try assumption; try reflexivity. apply sn_le_refl.
   - destruct Hf as [Hf1 Hf2]. rewrite final_ops_cons.
     destruct (apply_j w _ _ _ _ Hwf Hf1 Hn) as (p1 & Hn1 & Hi1 & Hk1 & Hc1 & Hle1).
     destruct (IH _ _ (apply_wf w c o Hwf) Hf2 Hn1) as (q & Hq & Hi & Hk & Hc & Hle).
-    exists q. repeat split; try congruence. exact (sn_le_trans _ _ _ Hle1 Hle).
+    exists q. repeat split; try congruence.
+    + intros Hall. inversion Hall; subst. rewrite Hk; [now apply Hk1|]. now rewrite Hi1.
+    + exact (sn_le_trans _ _ _ Hle1 Hle).
 Qed.
 
 (* No replay across ALL routes: if pairing j knows number s now - because it accepted
@@ -187,7 +202,7 @@ Qed.
    1. an accepted broadcast does not advance the persisted copy, so a restart forgets
       it and the same advertisement is accepted again;
    2. (already in BcastHist) a plain advertisement can roll the number back. *)
-Definition obs2_p : pairing := mkP [1;2;3;4;5;6] (Some 7) (Some 10) (Some 10) [(11, FU8)].
+Definition obs2_p : pairing := mkP [1;2;3;4;5;6] (Some 7) (Some 10) (Some 10) [(11, FU8)] true.
 Definition obs2_f : frame := ([17;54;1;2;3;4;5;6], PSeal 7 11 [1;2;3;4;5;6] [11;0;11;0;42;0;0;0;0;0;0;0]).
 
 Lemma restart_replay :
